@@ -1,0 +1,9 @@
+//go:build !verif
+
+// Package verifhook provides named synchronisation points for an external
+// verification harness. Without the "verif" build tag Gate is an empty
+// function that the compiler removes.
+package verifhook
+
+// Gate does nothing in regular builds.
+func Gate(name string) {}
